@@ -1,4 +1,6 @@
 import GomlVerif.Model.Num
+import GomlVerif.Model.GoConst
+import GomlVerif.Gen.FloatPrint
 import GomlVerif.Gen.OpMap
 import GomlVerif.Gen.ToString
 import GomlVerif.Gen.NumTypes
@@ -164,6 +166,216 @@ def tostrOutcome (name : String) : String :=
   | some h => s!"helper {h.1} {h.2.1} {h.2.2} ok={verbOk h}"
   | none => "no-such-helper"
 
+/-! ### constant-aware evaluation of the REAL printed Go text (parsed by `goparse::parse_go_raw`, literal texts kept)
+
+`Model/GoConst` supplies the semantics (exact constant expressions, one rounding at the typed use, IEEE operations on
+bits); this is only the walk over the S-expression of the emitted functions `g`, `f`, `main0`. -/
+namespace GoEval
+open Goml.GoConst
+
+inductive V where
+  | flt (ty : String) (bits : Nat)
+  | bool (b : Bool)
+  | const (c : CVal)
+  | other
+  deriving Inhabited
+
+def errName : CErr → String
+  | .divisionByZero => "division-by-zero" | .overflows => "constant-overflows-type" | .notRepresentable => "not-representable"
+  | .badLiteral => "bad-literal" | .mismatched => "mismatched-operands"
+
+def hexOf (n : Nat) : String := String.ofList (Nat.toDigits 16 n)
+
+def showV : V → String
+  | .flt ty b => s!"{ty} {hexOf b}"
+  | .bool b => s!"bool {b}"
+  | .const (.int v) => s!"const-int {v}"
+  | .const (.flt q) => s!"const-float {q.num}/{q.den}"
+  | .const (.bool b) => s!"bool {b}"
+  | .other => "other"
+
+/-- the one conversion of a value at a typed position -/
+def convert (ty : String) : V → Except String V
+  | .const c =>
+    if ty == "bool" then (match c with | .bool b => .ok (.bool b) | _ => .error "go-compile-error mismatched-operands")
+    else match convertFloat ty c with
+      | .ok b => .ok (.flt ty b)
+      | .error e => .error s!"go-compile-error {errName e}"
+  | v => .ok v
+
+def isCmpSym (s : String) : Bool := s == "<" || s == "<=" || s == ">" || s == ">=" || s == "==" || s == "!="
+
+def binV (sym : String) (a b : V) : Except String V :=
+  match a, b with
+  | .const x, .const y =>
+    match constBin sym x y with
+    | .ok v => .ok (.const v)
+    | .error e => .error s!"go-compile-error {errName e}"
+  | .flt ty x, .flt _ y =>
+    match fmtOf ty with
+    | some (p, eb) =>
+      if isCmpSym sym then (match ieeeCmp p eb sym x y with | some r => .ok (.bool r) | none => .error "run-time-inf-or-nan")
+      else (match ieeeBin p eb sym x y with | some r => .ok (.flt ty r) | none => .error "run-time-inf-or-nan")
+    | none => .error "not-a-float-type"
+  | .bool x, .bool y =>
+    if sym == "&&" then .ok (.bool (x && y)) else if sym == "||" then .ok (.bool (x || y))
+    else if sym == "==" then .ok (.bool (x == y)) else if sym == "!=" then .ok (.bool (x != y)) else .error "bad-bool-op"
+  | _, _ => .error "operands-not-evaluable"
+
+structure Fn where
+  name : String
+  params : List (String × String)
+  ret : String
+  body : List Sexp
+
+def decFn : Sexp → Option Fn
+  | .list [.atom "func", .atom n, .list ps, .atom ret, .list body] =>
+    some { name := n, ret := ret, body := body,
+           params := ps.filterMap fun | .list [.atom x, .atom t] => some (x, t) | _ => none }
+  | _ => none
+
+abbrev Env := List (String × String × V)   -- name, declared type, value
+
+def zeroOf (ty : String) : V :=
+  if ty == "float32" || ty == "float64" then .flt ty 0 else if ty == "bool" then .bool false else .other
+
+mutual
+partial def evalE (fns : List Fn) (env : Env) : Sexp → Except String V
+  | .list [.atom "num", .atom t] =>
+    match litVal t with
+    | .ok c => .ok (.const c)
+    | .error e => .error s!"go-compile-error {errName e}"
+  | .list [.atom "var", .atom x] =>
+    if x == "true" then .ok (.bool true) else if x == "false" then .ok (.bool false)
+    else match env.find? (·.1 == x) with
+      | some (_, _, v) => .ok v
+      | none => .error s!"unbound {x}"
+  | .list [.atom "paren", e] => evalE fns env e
+  | .list [.atom "un", .atom "neg", e] => do
+    match ← evalE fns env e with
+    | .const (.int v) => pure (.const (.int (-v)))
+    | .const (.flt q) => pure (.const (.flt q.neg))
+    | .flt ty b => match fmtOf ty with
+      | some (p, eb) => pure (.flt ty (ieeeNeg p eb b))
+      | none => throw "not-a-float-type"
+    | _ => throw "bad-neg"
+  | .list [.atom "un", .atom "not", e] => do
+    match ← evalE fns env e with
+    | .bool b => pure (.bool (!b))
+    | .const (.bool b) => pure (.const (.bool (!b)))
+    | _ => throw "bad-not"
+  | .list [.atom "bin", .atom sym, l, r] => do
+    let a ← evalE fns env l
+    let b ← evalE fns env r
+    -- an untyped constant operand next to a typed one is converted to that type first
+    match a, b with
+    | .flt ty _, .const _ => binV sym a (← convert ty b)
+    | .const _, .flt ty _ => binV sym (← convert ty a) b
+    | .bool _, .const _ => binV sym a (← convert "bool" b)
+    | .const _, .bool _ => binV sym (← convert "bool" a) b
+    | _, _ => binV sym a b
+  | .list (.atom "call" :: .list [.atom "var", .atom f] :: args) => do
+    match fns.find? (·.name == f) with
+    | none => pure .other
+    | some fn =>
+      let vs ← (fn.params.zip args).mapM fun ((x, t), a) => do
+        let v ← evalE fns env a
+        pure (x, t, ← convert t v)
+      match ← exec fns fn.ret vs fn.body with
+      | (_, some v) => pure v
+      | (_, none) => throw "no-return"
+  | _ => .ok .other
+
+/-- statements in order; `some v` = the function returned `v` (converted to the result type `ret`) -/
+partial def exec (fns : List Fn) (ret : String) (env : Env) : List Sexp → Except String (Env × Option V)
+  | [] => .ok (env, none)
+  | st :: rest => do
+    match st with
+    | .list [.atom "vardecl", .atom x, .atom t, .atom "none"] => exec fns ret ((x, t, zeroOf t) :: env) rest
+    | .list [.atom "vardecl", .atom x, .atom t, e] =>
+      let v ← convert t (← evalE fns env e)
+      exec fns ret ((x, t, v) :: env) rest
+    | .list [.atom "assign", .list [.atom "var", .atom x], e] =>
+      let t := ((env.find? (·.1 == x)).map (·.2.1)).getD "?"
+      let v ← convert t (← evalE fns env e)
+      exec fns ret (env.map fun (n, ty, old) => if n == x then (n, ty, v) else (n, ty, old)) rest
+    | .list [.atom "return", e] =>
+      let v ← convert ret (← evalE fns env e)
+      pure (env, some v)
+    | .list [.atom "if", c, .list th, el] =>
+      let cv ← convert "bool" (← evalE fns env c)
+      let branch := match cv with
+        | .bool true => th
+        | _ => (match el with | .list es => es | _ => [])
+      match ← exec fns ret env branch with
+      | (env', some v) => pure (env', some v)
+      | (env', none) => exec fns ret (env'.drop (env'.length - env.length)) rest
+    | _ => exec fns ret env rest
+end
+
+/-- static part of Go's rules: every operator whose operands are all literals is evaluated (and must convert to the
+    program's float type `ty`) even in code that is never executed -/
+partial def constTree : Sexp → Option CExpr
+  | .list [.atom "num", .atom t] => some (.lit t)
+  | .list [.atom "paren", e] => (constTree e).map .paren
+  | .list [.atom "un", .atom "neg", e] => (constTree e).map .neg
+  | .list [.atom "bin", .atom sym, l, r] => do pure (.bin sym (← constTree l) (← constTree r))
+  | _ => none
+
+partial def staticErrors (ty : String) : Sexp → List String
+  | sx@(.list xs) =>
+    match constTree sx with
+    | some ce =>
+      match constEval ce with
+      | .error e => [s!"go-compile-error {errName e}"]
+      | .ok (.bool _) => []
+      | .ok v => (match convertFloat ty v with | .error e => [s!"go-compile-error {errName e}"] | .ok _ => [])
+    | none => xs.flatMap (staticErrors ty)
+  | _ => []
+
+/-- number of operators in the largest all-literal operator tree (ANF must keep this ≤ 1) -/
+partial def constOps : CExpr → Nat
+  | .lit _ => 0 | .neg e => constOps e | .paren e => constOps e | .bin _ l r => 1 + constOps l + constOps r
+
+partial def maxConstOps : Sexp → Nat
+  | sx@(.list xs) =>
+    match constTree sx with
+    | some ce => constOps ce
+    | none => xs.foldl (fun m x => max m (maxConstOps x)) 0
+  | _ => 0
+
+/-- value of the call `f(…)` in `main0`, under Go's constant rules -/
+def runFile (ty : String) (file : Sexp) : String :=
+  match file with
+  | .list (.atom "gofile" :: items) =>
+    let fns := items.filterMap decFn
+    let errs := items.flatMap (staticErrors ty)
+    let ops := items.foldl (fun m x => max m (maxConstOps x)) 0
+    let res :=
+      match errs with
+      | e :: _ => e
+      | [] =>
+        match fns.find? (fun (fn : Fn) => fn.name == "main0") with
+        | none => "no-main0"
+        | some m =>
+          let call : Option Sexp := m.body.findSome? fun (st : Sexp) =>
+            match st with
+            | Sexp.list [Sexp.atom "vardecl", _, _, c@(Sexp.list (Sexp.atom "call" :: Sexp.list [Sexp.atom "var", Sexp.atom "f"] :: _))] => some c
+            | _ => none
+          match call with
+          | none => "no-call-of-f"
+          | some c =>
+            match evalE fns [] c with
+            | .ok v => showV v
+            | .error e => e
+    s!"{res} constops={ops}"
+  | _ => "not-a-gofile"
+
+end GoEval
+
+def fprintOutcome : String :=
+  " ".intercalate (Gen.FloatPrint.literalText.map fun r => s!"{r.1}={r.2}")
+
 def runLine (l : String) : String :=
   let (id, rest) := splitTab l
   let unDash (s : String) : String := if s == "-" then "" else s
@@ -181,6 +393,12 @@ def runLine (l : String) : String :=
       | _, _ => s!"{id}\tno-op"
     else s!"{id}\t{inner}"
   | some (.list [.atom "pat", .atom d, .atom s, .atom sc, .atom sh]) => s!"{id}\t{patOutcome d (unDash s) sc sh}"
+  | some (.list [.atom "goeval", .atom ty, file]) => s!"{id}\t{GoEval.runFile ty file}"
+  | some (.list [.atom "fround", .atom ty, .atom text]) =>
+    match Goml.GoConst.litBits ty text with
+    | some b => s!"{id}\t{GoEval.hexOf b}"
+    | none => s!"{id}\tnone"
+  | some (.list [.atom "fprint"]) => s!"{id}\t{fprintOutcome}"
   | some (.list [.atom "parse", .atom rust, .atom s]) =>
     match IntTy.ofRust rust with
     | some t =>
